@@ -252,6 +252,41 @@ void table(Tab& t)
             SCN("string_view", "compare(pos1,count1,sv)", "size=%zu,pos1>size", n, true, { vf::Buf<char> h(n); std::memset(h.data(), 'a', n); etl::string_view v(h.data(), n); WATCH(v); use(v.compare(k, 1, v)); });
         }
     }
+    // a violated position precondition must fire whatever the OTHER arguments are (count 0, 1, npos): a "nothing to do" shortcut must not
+    // come before the check
+    for (std::size_t n : {std::size_t(0), std::size_t(2), std::size_t(5)}) {
+        for (std::size_t cnt : {std::size_t(0), std::size_t(1), SMAX}) {
+            for (std::size_t b : {std::size_t(1), SMAX / 2 + 1}) {
+                std::size_t k = b >= SMAX / 2 ? b : n + b;
+                char sb[64];
+                std::snprintf(sb, sizeof sb, "size=%zu,pos>size,count=%s", n, cnt == 0 ? "0" : (cnt == SMAX ? "npos" : "1"));
+                SCN("string_view", "substr(pos,count)", "%s", sb, true, { vf::Buf<char> h(n); std::memset(h.data(), 'a', n); etl::string_view v(h.data(), n); WATCH(v); use(v.substr(k, cnt)); });
+                SCN("string_view", "copy(dest,count,pos)", "%s", sb, true, { vf::Buf<char> h(n); std::memset(h.data(), 'a', n); vf::Buf<char> d(8); etl::string_view v(h.data(), n); WATCH(v); use(v.copy(d.data(), cnt == SMAX ? 8 : cnt, k)); });
+                SCN("string_view", "compare(pos1,count1,sv)", "%s", sb, true, { vf::Buf<char> h(n); std::memset(h.data(), 'a', n); etl::string_view v(h.data(), n); WATCH(v); use(v.compare(k, cnt, v)); });
+                SCN("string_view", "compare(pos1,count1,ptr,count2)", "%s", sb, true, { vf::Buf<char> h(n + 1); std::memset(h.data(), 'a', n + 1); etl::string_view v(h.data(), n); WATCH(v); use(v.compare(k, cnt, h.data(), 1)); });
+                SCN("inplace_string<7>", "compare(pos,count,str)", "%s", sb, true, { etl::inplace_string<7> x(n, 'a'); WATCH(x); use(x.compare(k, cnt, x)); });
+                SCN("inplace_string<7>", "insert(index,count,ch)", "%s", sb, true, { etl::inplace_string<7> x(n, 'a'); WATCH(x); x.insert(k, cnt == SMAX ? 1 : cnt, 'b'); });
+                SCN("inplace_string<20>", "insert(index,count,ch)", "%s", sb, true, { etl::inplace_string<20> x(n, 'a'); WATCH(x); x.insert(k, cnt == SMAX ? 1 : cnt, 'b'); });
+            }
+        }
+    }
+    // (inplace_string::substr documents "pos > size() returns an empty string", so substr and the members built on it - append/assign/constructor
+    // from (str,pos,count) - have no position precondition and are not scenarios)
+    // preconditions on a position inside the OTHER object: the two objects have different sizes (both orders) and the position lies
+    // between the two sizes or behind both
+    for (std::size_t n : {std::size_t(1), std::size_t(6)}) {       // size of *this
+        for (std::size_t m : {std::size_t(1), std::size_t(6)}) {   // size of the argument
+            if (n == m) { continue; }
+            for (std::size_t p2 : {m + 1, m + 3, SMAX / 2 + 1}) {
+                char sb[64];
+                std::snprintf(sb, sizeof sb, "size=%zu,arg-size=%zu,pos2=%s", n, m, p2 > SMAX / 2 ? "SIZE_MAX/2+1" : (p2 <= n ? "arg-size<pos2<=size" : "beyond-both"));
+                SCN("string_view", "compare(pos1,count1,sv,pos2,count2)", "%s", sb, true, { vf::Buf<char> h(8); std::memset(h.data(), 'a', 8); etl::string_view v(h.data(), n); etl::string_view w(h.data(), m); WATCH(v); use(v.compare(0, 1, w, p2, 1)); });
+                SCN("inplace_string<7>", "compare(pos1,count1,str,pos2,count2)", "%s", sb, true, { etl::inplace_string<7> x(n, 'a'); etl::inplace_string<7> y(m, 'b'); WATCH(x); use(x.compare(0, 1, y, p2, 1)); });
+                SCN("inplace_string<7>", "insert(index,str,index_str,count)", "%s", sb, true, { etl::inplace_string<7> x(std::size_t(1), 'a'); etl::inplace_string<7> y(m, 'b'); (void)n; WATCH(x); x.insert(0, y, p2, 1); });
+                SCN("inplace_string<20>", "replace(pos,count,str,pos2,count2)", "%s", sb, true, { etl::inplace_string<20> x(n + 3, 'a'); etl::inplace_string<20> y(m, 'b'); WATCH(x); x.replace(0, 1, y, p2, 1); });
+            }
+        }
+    }
     SCN("string_view", "front()", "%s", "empty", true, { etl::string_view v; WATCH(v); use(v.front()); });
     SCN("string_view", "back()", "%s", "empty", true, { etl::string_view v; WATCH(v); use(v.back()); });
 
